@@ -439,6 +439,21 @@ def run(ctx):
     pm_o = _pm2(opt.node)
     withs = [a for a in _anc2(subs[0], pm_o) if isinstance(a, ast.With)]
     count_loops = [a for a in _anc2(subs[0], pm_o) if isinstance(a, ast.For) and "itertools.count" in norm(a.iter)]
+    # the worker threads are joined before optimize() returns or raises: the pool is a `with` item (its exit waits for the running trials) -
+    # a pool shut down with wait=False lets optimize() raise while a sibling trial is still inside its objective (left RUNNING for the caller)
+    pools = [c for c in own_nodes(opt.node) if isinstance(c, ast.Call) and (dotted(c.func) or "").endswith("ThreadPoolExecutor")]
+    ctx.require(pools, "R02.5: the n_jobs branch no longer creates a ThreadPoolExecutor")
+    pool_is_with_item = any(isinstance(a, ast.With) and any(it.context_expr is pools[0] for it in a.items) for a in ast.walk(opt.node))
+    no_wait = [c for c in own_nodes(opt.node) if isinstance(c, ast.Call) and isinstance(c.func, ast.Attribute) and c.func.attr == "shutdown"
+               and any(k.arg == "wait" and isinstance(k.value, ast.Constant) and k.value.value is False for k in c.keywords)]
+    ctx.check(pool_is_with_item and not no_wait, "R02.5", opt.short, "workers-joined-before-optimize-leaves",
+              message="the n_jobs branch does not wait for its worker threads on every way out (the pool is not a `with` item, or is shut down with wait=False): when one "
+                      "trial raises an exception that is not caught - or the main thread is interrupted - optimize() raises while sibling trials are still running, so "
+                      "the caller finds trials in state RUNNING",
+              how="`with ThreadPoolExecutor(...) as executor:` around the submission loop (exit joins the workers)",
+              where=where(opt, (no_wait or pools)[0]))
+    if not withs:
+        withs = [a for a in _anc2(subs[0], pm_o) if isinstance(a, ast.Try)]
     ctx.require(withs and count_loops, "R02.5: executor block / submission loop not found")
     w, cl = withs[0], count_loops[0]
     fut_names = {norm(c.func.value) for c in own_nodes(opt.node) if isinstance(c, ast.Call) and isinstance(c.func, ast.Attribute) and c.func.attr == "add"
@@ -524,6 +539,31 @@ def run(ctx):
                               "optimize() raises regardless of `catch`, skips the callbacks and the remaining trials",
                       how="the read sits in a try body with a non-re-raising `except ValueError`", where=where(lf, x))
     ctx.floor("R02.5", "best_trial_reads_in_completion_log", n_bt, 1)
+
+    # "tell never alters a finished trial" rests on the storages' finished-trial guard being atomic with the write: two threads telling one
+    # RUNNING trial must not both pass the guard (in-memory: guard, state test and publication in one `with self._lock`; RDB: locked row)
+    ctx.rule("R02.7", "the finished-trial guard of set_trial_state_values is atomic with the write it protects (in-memory: one critical section; RDB: "
+             "tested on the for-update row inside the writing transaction)")
+    from rules import _cas as _cas2
+    _cas2.cas_atomic_rule(ctx, "R02.7", label="finished-guard")
+    _cas2.cas_rdb_atomic_rule(ctx, "R02.7", label="finished-guard")
+
+    # what is stored are the validated floats "whatever the sampler does": the list object handed to sampler.after_trial is not the object
+    # that is passed to set_trial_state_values afterwards (an after_trial that edits its argument in place would change the stored values)
+    twf = p.func("optuna.study._tell._tell_with_warning")
+    at_calls = [c for c in own_nodes(twf.node) if isinstance(c, ast.Call) and isinstance(c.func, ast.Attribute) and c.func.attr == "after_trial"]
+    st_calls = [c for c in own_nodes(twf.node) if isinstance(c, ast.Call) and isinstance(c.func, ast.Attribute) and c.func.attr == "set_trial_state_values"]
+    ctx.require(at_calls and st_calls, "R02.3: after_trial / set_trial_state_values call vanished from _tell_with_warning")
+    for ac in at_calls:
+        av = ac.args[3] if len(ac.args) > 3 else next((k.value for k in ac.keywords if k.arg == "values"), None)
+        for sc_ in st_calls:
+            sv = sc_.args[2] if len(sc_.args) > 2 else next((k.value for k in sc_.keywords if k.arg == "values"), None)
+            same = isinstance(av, ast.Name) and isinstance(sv, ast.Name) and av.id == sv.id
+            ctx.check(not same, "R02.3", twf.short, "sampler-gets-its-own-values-list",
+                      message=f"_tell_with_warning passes the list `{norm(av) if av is not None else None}` to sampler.after_trial and then the same object to "
+                              f"set_trial_state_values: a sampler that edits its `values` argument in place (negate, append, NaN) changes what is stored after the values "
+                              f"were validated - COMPLETE with [-3.0] / [3.0, 7.0] / [nan] for an objective that returned 3.0",
+                      how="after_trial receives a copy (list(values)) or the store receives one", where=where(twf, ac))
 
     # public wrappers forward their arguments unchanged
     tf = p.func("optuna.study.study.Study.tell")
